@@ -5,7 +5,7 @@ import os
 import random
 from fractions import Fraction as F
 
-from ..comp import align
+from ..comp import align, pairwise_ipa
 from ..lib import coqrun, driver, env, proofs, report
 
 PROP = "C02"
@@ -64,6 +64,15 @@ def main(tier, seed):
     except coqrun.CoqError as e:
         run.violation({"kind": "model does not evaluate", "no_longer_checks": "Align/Calign.v, Align/LibScore.v",
                        "error": str(e)}, no_input=True)
+    # the IPA-level entry point: Pairwise.align must hand exactly the requested parameters (documented defaults for
+    # the keywords left out) to calign.align_pairs, whose score is what the streams above re-score
+    st, errs, raised = pairwise_ipa.glue_histories(random.Random(seed + 7), 120 if tier == "quick" else 3000)
+    run.coverage.setdefault("streams", {})["pairwise_glue"] = st
+    for e in errs[:3]:
+        run.violation(dict(e, stream="pairwise_glue", kind="Pairwise.align does not return what calign.align_pairs "
+                           "returns for the requested parameters (documented defaults for omitted keywords)"),
+                      no_input=not e["score_differs"])
+    total_prop += sum(1 for e in errs if e["score_differs"])
     if not proofs_ok and not total_prop:
         run.violation({"kind": "proof obligation broken", "no_longer_checks": pr["broken"], "log": pr["log"][-1500:]},
                       no_input=True)
